@@ -74,13 +74,15 @@ type c31ReadWitness struct {
 	GotH   int64       `json:"answered_height"`
 	Err    string      `json:"err,omitempty"`
 	Conc   bool        `json:"conc"`
+	// OwnFloor: the lower bound is an earlier answer to the same reader, not the notifier's clock
+	OwnFloor bool `json:"lower_bound_from_readers_own_earlier_answer,omitempty"`
 }
 
 type c31ConcStats struct {
 	runs, notifies, gaps, reads, overlapping, beforeFirst              int
 	latestOK, latestAdvancedInside, mustServe, mustFail, eitherAllowed int
-	eitherServed, eitherAbsent, txMatched                               int
-	perKind                                                             [4]int
+	eitherServed, eitherAbsent, txMatched, floorTightened              int
+	perKind                                                            [4]int
 }
 
 func (s *c31ConcStats) add(o *c31ConcStats) {
@@ -98,6 +100,7 @@ func (s *c31ConcStats) add(o *c31ConcStats) {
 	s.eitherServed += o.eitherServed
 	s.eitherAbsent += o.eitherAbsent
 	s.txMatched += o.txMatched
+	s.floorTightened += o.floorTightened
 	for i := range s.perKind {
 		s.perKind[i] += o.perKind[i]
 	}
@@ -377,6 +380,11 @@ func runC31Conc(p c31ConcPlan, st *c31ConcStats) (string, string, any) {
 		return int64(p.Heights[i])
 	}
 	for ri := range events {
+		// floor: the newest notification this reader has already been shown by an earlier
+		// answer of its own (a served block of index g proves the indexer had taken in
+		// notification g). The reads of one reader follow each other and accepted blocks
+		// are never taken back, so every later read of this reader starts from there.
+		floor := -1
 		for seq := range events[ri] {
 			ev := &events[ri][seq]
 			st.reads++
@@ -385,17 +393,36 @@ func runC31Conc(p c31ConcPlan, st *c31ConcStats) (string, string, any) {
 				st.overlapping++
 			}
 			lo, hi := int(ev.lo), int(ev.hi)
+			fromOwn := ""
+			if floor > lo {
+				lo = floor
+				fromOwn = fmt.Sprintf("; an earlier answer to this reader already showed height %d", p.Heights[floor])
+				st.floorTightened++
+			}
+			if ev.ok {
+				g, known := -1, false
+				if ev.kind == c31kLatest {
+					if ev.blk != nil {
+						g, known = func() (int, bool) { i, ok := idxOf[ev.blk.Block.Hght]; return i, ok }()
+					}
+				} else {
+					g, known = func() (int, bool) { i, ok := idxOf[ev.h]; return i, ok }()
+				}
+				if known && g > floor {
+					floor = g // for the following reads (this one is judged with the old floor)
+				}
+			}
 			if hi < lo || hi >= N {
 				return "harness", fmt.Sprintf("bracket [%d,%d] out of order", lo, hi), p
 			}
-			wit := c31ReadWitness{Plan: p, Conc: true, Reader: ri, Seq: seq, Call: c31KindName[ev.kind], Height: ev.h, TxIdx: int(ev.txi), Lo: lo, Hi: hi, LoH: hOf(ev.lo), HiH: hOf(ev.hi), Ok: ev.ok, GotH: -1}
+			wit := c31ReadWitness{Plan: p, Conc: true, Reader: ri, Seq: seq, Call: c31KindName[ev.kind], Height: ev.h, TxIdx: int(ev.txi), Lo: lo, Hi: hi, LoH: hOf(int32(lo)), HiH: hOf(ev.hi), Ok: ev.ok, GotH: -1, OwnFloor: fromOwn != ""}
 			if ev.err != nil {
 				wit.Err = ev.err.Error()
 			}
 			if ev.blk != nil {
 				wit.GotH = int64(ev.blk.Block.Hght)
 			}
-			where := fmt.Sprintf("reader %d read %d %s (window %d; Notify had returned up to height %d before the call, had been called up to height %d at the return)", ri, seq, c31KindName[ev.kind], W, wit.LoH, wit.HiH)
+			where := fmt.Sprintf("reader %d read %d %s (window %d; Notify had returned up to height %d before the call, had been called up to height %d at the return%s)", ri, seq, c31KindName[ev.kind], W, hOf(ev.lo), wit.HiH, fromOwn)
 			if ev.kind == c31kLatest {
 				if !ev.ok {
 					if lo >= 0 {
@@ -608,6 +635,7 @@ func c31ConcCount(r *kit.Run, st *c31ConcStats) {
 	r.Count("conc_either_allowed_served", st.eitherServed)
 	r.Count("conc_either_allowed_absent", st.eitherAbsent)
 	r.Count("conc_txs_matched", st.txMatched)
+	r.Count("conc_lower_bound_raised_by_readers_own_earlier_answer", st.floorTightened)
 }
 
 // c31Concurrent is the concurrent part of TestC31.
